@@ -523,18 +523,24 @@ class StmtMixin:
         # every passing position i0 is followed (or equalled) by last(key(i0)), a passing position with the same key.
         last = z3.Function(fresh_name("lastpos"), kt.sort(), z3.IntSort())
         i0 = z3.Int(fresh_name("cp"))
-        li = last(at(kterm, i0))
-        ax = z3.Implies(at(passing, i0), z3.And(at(passing, li), at(kterm, li) == at(kterm, i0), i0 <= li))
+        # the key expression gets a NAME keyf(i) (an uninterpreted function defined position-wise), so that the axiom
+        # below can always carry the trigger last(keyf(i0)) — without a trigger it is a matching loop for z3 whenever the
+        # key term cannot be a pattern itself (an ite: `m.get(n, n)`)
+        keyf = z3.Function(fresh_name("keyat"), z3.IntSort(), kt.sort())
         try:
-            st.assume(z3.ForAll([i0], ax, patterns=[li]))  # fires on last(key) terms (goals about values of the result) ..
+            st.assume(z3.ForAll([i0], keyf(i0) == at(kterm, i0), patterns=[keyf(i0), at(kterm, i0)]))
         except z3.Z3Exception:
-            pass  # the key term cannot be a pattern (contains an ite / arithmetic only)
-        st.assume(z3.ForAll([i0], ax))  # .. and with the solver's own triggers (goals about source positions)
+            st.assume(z3.ForAll([i0], keyf(i0) == at(kterm, i0)))
+        li = last(keyf(i0))
+        ax = z3.Implies(at(passing, i0), z3.And(at(passing, li), keyf(li) == keyf(i0), i0 <= li))
+        st.assume(z3.ForAll([i0], ax, patterns=[li]))
+        if getattr(self.c, "comp_lastpos_free", False):
+            st.assume(z3.ForAll([i0], ax))  # the same with the solver's own triggers (can be a matching loop)
         # direct consequence: the key of every passing position is in the domain
-        st.assume(z3.ForAll([i0], z3.Implies(at(passing, i0), z3.Select(dom, at(kterm, i0)))))
+        st.assume(z3.ForAll([i0], z3.Implies(at(passing, i0), z3.Select(dom, keyf(i0))), patterns=[keyf(i0)]))
         # the same, keyed by the result's keys (the form that goals about `k in result` instantiate)
         ly = last(y)
-        st.assume(z3.ForAll([y], z3.Implies(z3.Select(dom, y), z3.And(at(passing, ly), at(kterm, ly) == y))))
+        st.assume(z3.ForAll([y], z3.Implies(z3.Select(dom, y), z3.And(at(passing, ly), keyf(ly) == y)), patterns=[ly]))
         mp = z3.Lambda([y], at(lift(ve), last(y)))
         rt = T.Dict(kt, ve.ty)
         ks = fresh(T.List(kt), "keys")
